@@ -80,6 +80,13 @@ CHECKS = {
         "note": "Bounded exhaustive (length 3 / 4); fakes for Redis/RabbitMQ.",
         "ref": "DESIGN.md 5/C16",
     },
+    "C18": {
+        "level": "exploration",
+        "technique": "runtime monitoring: token-returning providers + reference evaluator over generated dependency DAGs, executed through real Workers",
+        "text": "Random acyclic dependency graphs (<= 7 providers, shared sub-dependencies, sync/async mix, MessageDependency leaves, providers with defaulted plain parameters) are declared on generated actors whose payload parameters (positional-only, positional-or-keyword, keyword-only, defaults) are interleaved with the dependency parameters; providers return tokens encoding their own resolved inputs; a reference evaluator gives the expected token tree; three rounds per graph set: plain, after overrides (incl. overrides changing the sub-dependency set), with a reachable provider failing (must follow the retry rules: requeue then nack, body never runs). 17 unsupported declarations must raise ValueError at declaration / Depends() / override().",
+        "note": "In-memory broker, both converters, virtual time.",
+        "ref": "DESIGN.md 5/C18",
+    },
     "C19": {
         "level": "exploration",
         "technique": "runtime monitoring: closed-form oracle over real function calls under an interposed, pinned wall clock",
